@@ -21,6 +21,8 @@ Sequence of **Interaction** events (u, v, +/-, t):
 >>> 1 2 - 3
 """
 
+import codecs
+
 from dynetx.utils import open_file, make_str, compact_timeslot
 from dynetx import DynGraph
 from dynetx import DynDiGraph
@@ -64,9 +66,9 @@ def write_interactions(G, path, delimiter=' ', encoding='utf-8'):
         encoding: str
             Text enconding, default utf-8
         """
+    out = codecs.getwriter(encoding)(path)
     for line in generate_interactions(G, delimiter):
-        line += '\n'
-        path.write(line.encode(encoding))
+        out.write(line + '\n')
 
 
 @open_file(0, mode='rb')
@@ -103,7 +105,7 @@ def read_interactions(path, comments="#", directed=False, delimiter=None,
 
     """
     ids = None
-    lines = (line.decode(encoding) for line in path)
+    lines = codecs.getreader(encoding)(path)
     if keys:
         ids = read_ids(path.name, delimiter=delimiter, timestamptype=timestamptype, comments=comments, ops=True)
 
@@ -199,9 +201,9 @@ def write_snapshots(G, path, delimiter=' ', encoding='utf-8'):
         encoding: str
             Encoding string, default utf-8
         """
+    out = codecs.getwriter(encoding)(path)
     for line in generate_snapshots(G, delimiter):
-        line += '\n'
-        path.write(line.encode(encoding))
+        out.write(line + '\n')
 
 
 def parse_snapshots(lines, comments='#', directed=False, delimiter=None, nodetype=None, timestamptype=None, keys=None):
@@ -287,7 +289,7 @@ def read_snapshots(path, comments="#", directed=False, delimiter=None,
         keys: bool
     """
     ids = None
-    lines = (line.decode(encoding) for line in path)
+    lines = codecs.getreader(encoding)(path)
     if keys:
         ids = read_ids(path.name, delimiter=delimiter, timestamptype=timestamptype, comments=comments)
 
